@@ -32,7 +32,13 @@ def digests(prop, seed, lo, hi):
     for run in range(lo, hi):
         res, _ = m.one_run(seed, run)
         d = res.get("digest") or ("discard:" + str(res.get("discard")))
-        out.append([d, res.get("xdigest") or d])
+        x = res.get("xdigest") or d
+        if prop == "C15":
+            # the holder-mode scenario of the same run index (spec + verdict + observations of both sides)
+            from . import c15h
+            h = c15h.run_digest(seed, run)
+            d, x = runner.digest([d, h]), runner.digest([x, h])
+        out.append([d, x])
     return out
 
 
@@ -116,7 +122,12 @@ PROBES = {
             ("mutable_mode_objects", 1), ("builder_calls_on_a_duplicate_or_its_original_after_the_dup", 1),
             ("faults_fired.async_exc", 1), ("classes_duplicated.Table", 1), ("classes_duplicated.Schema", 1),
             ("classes_duplicated.Not", 1), ("classes_duplicated._SetOperation", 1), ("configs.seq+autoalias", 1),
-            ("automatic_aliases_written_into_shared_arguments", 1)],
+            ("automatic_aliases_written_into_shared_arguments", 1),
+            ("holder_mode_runs_embedded_mutable_subquery_changed_in_place_after_dup", 100),
+            ("holder_mode_runs_where_the_call_changed_the_touched_sides_render", 100),
+            ("holder_mode_mechanisms.deepcopy", 1), ("holder_mode_mechanisms.pickle", 1),
+            ("holder_mode_embedding_positions.join", 1), ("holder_mode_embedding_positions.values_rows", 1),
+            ("holder_mode_embedding_positions.with", 1), ("holder_mode_embedding_positions.create_as", 1)],
 }
 
 
